@@ -409,9 +409,17 @@ func (g *G) boolExpr(d int) *m.E {
 		return m.EBin(pickS(g, "cmp", []string{"<", "<=", ">", ">="}), g.Expr(TNum, d-1), g.Expr(TNum, d-1))
 	case 3:
 		l := g.Expr(TBool, d-1)
-		g.noCalls++
 		r := g.Expr(TBool, d-1)
-		g.noCalls--
+		// the right operand may be something that must not be evaluated when
+		// the left one decides: a recording callback, or an error
+		switch g.intn("andorrhs", 0, 7) {
+		case 0:
+			if g.callsOK() {
+				r = m.ECall("truth", r)
+			}
+		case 1:
+			r = m.EBin("==", m.EBin("%", m.ENum(10), m.ENum(0)), m.ENum(0))
+		}
 		return m.EBin(pickS(g, "andor", []string{"and", "or"}), l, r)
 	case 4:
 		return m.EUn("not", g.truthyOperand(d-1))
